@@ -195,31 +195,94 @@ func runC10(c *eng.Ctx) {
 	ruleReaderSegment(c)
 	c.Floor(6)
 
-	// ---- R10.7 timestamp positions: the lookup falls through to the following segment whenever there is one
+	// ---- R10.7 timestamp positions
 	c.Rule("R10.7", "K1")
-	if fn := c.Fn(cl + "(*commitLog).EarliestOffsetAfterTimestamp"); fn != nil {
-		segF := p.Field(clPkg, "commitLog", "segments")
-		idx := eng.Call(0, cl+"findSegmentIndexByTimestamp")
-		full := eng.CmpRels(fn, idx, eng.Len(eng.Load(segF, nil)))
-		short := eng.CmpRels(fn, idx, eng.Bin(token.SUB, eng.Len(eng.Load(segF, nil)), eng.IntConst(1)))
-		ok := len(short) == 0 && len(full) >= 1
-		for _, r := range full {
-			if r != eng.LT && r != eng.GE {
-				ok = false
-			}
+	segF := p.Field(clPkg, "commitLog", "segments")
+	// searched list of a timestamp lookup = first argument of findSegmentIndexByTimestamp
+	searched := func(fn *ssa.Function) ssa.Value {
+		cs := eng.CallsIn(fn, cl+"findSegmentIndexByTimestamp")
+		if len(cs) != 1 {
+			return nil
 		}
-		// segments[idx] is read only when it exists
-		exists := eng.CmpEdges(fn, idx, eng.Len(eng.Load(segF, nil)), eng.LT)
-		eng.Instrs(fn, func(in ssa.Instruction) {
-			if ia, isIA := in.(*ssa.IndexAddr); isIA && eng.Load(segF, nil)(ia.X) && idx(ia.Index) {
-				if g, _ := eng.GuardedBy(fn, in, exists); !g {
+		return cs[0].Common().Args[0]
+	}
+	if fn := c.Fn(cl + "(*commitLog).EarliestOffsetAfterTimestamp"); fn != nil {
+		if L := searched(fn); L == nil {
+			c.Unresolved("findSegmentIndexByTimestamp call in EarliestOffsetAfterTimestamp")
+		} else {
+			idx := eng.Call(0, cl+"findSegmentIndexByTimestamp")
+			list := func(v ssa.Value) bool { return v == L || (eng.Load(segF, nil)(v) && eng.Load(segF, nil)(L)) }
+			full := eng.CmpRels(fn, idx, eng.Len(list))
+			short := eng.CmpRels(fn, idx, eng.Bin(token.SUB, eng.Len(list), eng.IntConst(1)))
+			ok := len(short) == 0 && len(full) >= 1
+			for _, r := range full {
+				if r != eng.LT && r != eng.GE {
 					ok = false
 				}
 			}
-		})
-		c.Check(ok, "the segment after the searched one is consulted whenever it exists", p.Pos(fn.Pos()), "fall through to l.segments[idx] exactly when idx < len(l.segments)", "when the segment before idx has no entry at or after the timestamp, EarliestOffsetAfterTimestamp consults l.segments[idx] only under a test other than idx < len(l.segments): for a timestamp between the last entry of the second-to-last segment and the first entry of the last one it answers the next assignable offset, and a subscription starting at that timestamp skips the whole last segment")
+			// list[idx] is read only when it exists
+			exists := eng.CmpEdges(fn, idx, eng.Len(list), eng.LT)
+			eng.Instrs(fn, func(in ssa.Instruction) {
+				if ia, isIA := in.(*ssa.IndexAddr); isIA && list(ia.X) && idx(ia.Index) {
+					if g, _ := eng.GuardedBy(fn, in, exists); !g {
+						ok = false
+					}
+				}
+			})
+			c.Check(ok, "the segment after the searched one is consulted whenever it exists", p.Pos(fn.Pos()), "fall through to segments[idx] exactly when idx < len(segments)", "when the segment before idx has no entry at or after the timestamp, EarliestOffsetAfterTimestamp consults segments[idx] only under a test other than idx < len(segments): for a timestamp between the last entry of the second-to-last segment and the first entry of the last one it answers the next assignable offset, and a subscription starting at that timestamp skips the whole last segment")
+		}
 	}
-	c.Floor(1)
+	// An empty active segment (the state after every age-based roll, until the next append) has no first entry: probing it
+	// makes the binary search fail with EOF. The list handed to the search must leave it out (unless it is the only segment).
+	for _, k := range []string{"EarliestOffsetAfterTimestamp", "LatestOffsetBeforeTimestamp"} {
+		fn := c.Fn(cl + "(*commitLog)." + k)
+		if fn == nil {
+			continue
+		}
+		L := searched(fn)
+		ok, why := false, "the whole segment list, including a freshly rolled empty active segment, is searched"
+		if ph, isPhi := L.(*ssa.Phi); isPhi {
+			trimmed, plainGuarded := false, true
+			nonEmpty := eng.BoolEdges(fn, eng.Call(-1, cl+"segment.IsEmpty"), false)
+			single := eng.CmpEdges(fn, eng.Len(eng.Load(segF, nil)), eng.IntConst(1), eng.LE)
+			for i, e := range ph.Edges {
+				if sl, isSl := e.(*ssa.Slice); isSl && eng.Load(segF, nil)(sl.X) && sl.High != nil && eng.Bin(token.SUB, eng.Len(eng.Load(segF, nil)), eng.IntConst(1))(sl.High) && sl.Low == nil {
+					trimmed = true
+					continue
+				}
+				if eng.Load(segF, nil)(e) {
+					pred := ph.Block().Preds[i]
+					q := &eng.PathQuery{Fn: fn, FromEntry: true, TargetEdge: func(ed eng.Edge) bool { return ed.From == pred && ed.To() == ph.Block() }, CutEdges: append(append([]eng.Edge{}, nonEmpty...), single...)}
+					if q.Find() != nil {
+						plainGuarded = false
+					}
+					continue
+				}
+				plainGuarded = false
+			}
+			// the emptiness test looks at the last segment
+			lastTested := false
+			for _, ie := range eng.CallsIn(fn, cl+"segment.IsEmpty") {
+				if ia := indexOfLoad(ie.Common().Args[0]); ia != nil && eng.Bin(token.SUB, eng.Len(eng.Load(segF, nil)), eng.IntConst(1))(ia.Index) {
+					lastTested = true
+				}
+			}
+			ok = trimmed && plainGuarded && lastTested && len(nonEmpty) > 0
+			if !ok {
+				why = "the list searched is not (l.segments without an empty last segment)"
+			}
+		}
+		if !ok {
+			// equally good: the search predicate itself recognises the empty segment (EOF on its first entry) instead of failing
+			if pred := c.FnQuiet(cl + "findSegmentIndexByTimestamp$1"); pred != nil {
+				if len(eng.CmpEdges(pred, eng.AnyV, eng.Global("io.EOF"), eng.EQ)) > 0 {
+					ok = true
+				}
+			}
+		}
+		c.Check(ok, k+" leaves an empty active segment out of the search", p.Pos(fn.Pos()), "the searched list is l.segments[:n-1] when n > 1 and the last segment is empty, else l.segments", why+": right after a segment was rolled the lookup fails (EOF from the empty segment's index) or answers the end of the log although earlier segments hold matching messages")
+	}
+	c.Floor(3)
 
 	// ---- R10.5 termination on sparse logs
 	c.Rule("R10.5", "K1")
